@@ -1,7 +1,7 @@
 (* C15 - Metrics add up and match what clients were told. *)
 From Coq Require Import ZArith NArith List Bool String.
 Import ListNotations.
-Require Import TC.Resp.Utf8 TC.Resp.Parse TC.Resp.Cmd TC.Resp.CmdProofs TC.Server.Counters.
+Require Import TC.Resp.Utf8 TC.Resp.Parse TC.Resp.Cmd TC.Resp.CmdProofs TC.Server.Counters TC.Generated.Glue TC.Server.HandlerMetrics.
 Open Scope Z_scope.
 
 (* For ANY number of recorder threads with ANY programs of record_request / record_error
@@ -30,8 +30,7 @@ Print Assumptions C15_never_ahead.
 
 (* RESP: a command is recorded as denied exactly when the reply written to the client is a denial
    decision of the limiter - never for PING, QUIT, unknown or malformed commands, argument errors
-   or limiter errors (HTTP and gRPC pass the limiter's `allowed` flag to the recorder unchanged:
-   Properties/C12.v) *)
+   or limiter errors (HTTP and gRPC: C15_http_handler_records / C15_grpc_handler_records below) *)
 Theorem C15_resp_denied_iff_denial_sent :
   forall (upper : bytes -> bytes) (throttle : treq -> actor_res) (v reply : value) (ev : mevent),
   process_command upper throttle v = (reply, Some ev) ->
@@ -54,3 +53,17 @@ Proof.
     + eapply (step_inc _ 1). reflexivity.
   - split; [intros H; inversion H as [|? ? Hp _]; cbn in Hp; discriminate|]. split; reflexivity.
 Qed.
+
+(* HTTP and gRPC handlers (their recorder calls are re-extracted from http.rs / grpc.rs on every run): a decision of the
+   limiter is recorded with the limiter's own `allowed` flag on the handler's transport, a limiter error as an error; hence
+   the denied counter moves exactly for denial decisions returned to the client *)
+Theorem C15_http_handler_records : forall r, handler_mop HTTP_METRICS r = Some (expected_mop Http r).
+Proof. exact http_handler_mop. Qed.
+Print Assumptions C15_http_handler_records.
+Theorem C15_grpc_handler_records : forall r, handler_mop GRPC_METRICS r = Some (expected_mop Grpc r).
+Proof. exact grpc_handler_mop. Qed.
+Print Assumptions C15_grpc_handler_records.
+Theorem C15_handler_denied_iff_denial : forall t r,
+  In CDenied (micro (expected_mop t r)) <-> exists l rm rs rt, r = AOk false l rm rs rt.
+Proof. exact handler_denied_iff. Qed.
+Print Assumptions C15_handler_denied_iff_denial.
